@@ -3,5 +3,54 @@
 #![allow(missing_docs, unused_imports, unused, dead_code, unreachable_pub)]
 #![allow(clippy::all, clippy::pedantic)]
 
-// wrappers for the sock property group
+// wrappers for the sock property group (C40): start the real (private) SOCK
+// source task with a controller and clock chosen by the harness.
 use super::m;
+
+use std::collections::HashMap;
+use std::path::PathBuf;
+use std::sync::{Arc, RwLock};
+
+use ntp_proto::{ClockId, NtpClock, ObservableSourceState, OneWaySource, SourceController};
+
+use crate::daemon::ntp_source::{MsgForSystem, SourceChannels};
+use crate::daemon::sock_source::SockSourceTask;
+
+pub struct SockTask {
+    pub id: ClockId,
+    pub join: tokio::task::JoinHandle<()>,
+    pub snapshots: Arc<RwLock<HashMap<ClockId, ObservableSourceState>>>,
+    // keeps the system channel open for the lifetime of the task
+    _system_rx: tokio::sync::mpsc::Receiver<MsgForSystem>,
+}
+
+impl SockTask {
+    /// number of source snapshots the task has published (0 or 1)
+    pub fn snapshot_count(&self) -> usize {
+        self.snapshots.read().map(|m| m.len()).unwrap_or(0)
+    }
+}
+
+/// `SockSourceTask::spawn` exactly as `System::create_source` calls it: binds the
+/// Unix datagram socket at `path` and spawns the receive loop on the current
+/// tokio runtime. Must be called from inside a runtime.
+pub fn spawn_sock_task<C, Ctl>(path: PathBuf, clock: C, controller: Ctl) -> SockTask
+where
+    C: 'static + NtpClock + Send + Sync,
+    Ctl: SourceController,
+{
+    let (tx, rx) = tokio::sync::mpsc::channel(4);
+    let snapshots: Arc<RwLock<HashMap<ClockId, ObservableSourceState>>> = Arc::new(RwLock::new(HashMap::new()));
+    let id = ClockId::new();
+    let join = SockSourceTask::spawn(
+        id,
+        path,
+        clock,
+        SourceChannels {
+            msg_for_system_sender: tx,
+            source_snapshots: snapshots.clone(),
+        },
+        OneWaySource::new(controller),
+    );
+    SockTask { id, join, snapshots, _system_rx: rx }
+}
